@@ -211,8 +211,12 @@ func NdJSON(raw []byte, limit uint32) bool {
 	var l []byte
 	for len(raw) != 0 {
 		l, raw = scanLine(raw)
-		_, inspected, firstToken, _ := json.Parse(json.QueryNone, l)
+		parsed, inspected, firstToken, _ := json.Parse(json.QueryNone, l)
 		if len(l) != inspected {
+			return false
+		}
+		// A complete line holds a complete JSON value or it is blank.
+		if parsed != len(l) && len(bytes.TrimSpace(l)) != 0 {
 			return false
 		}
 		if firstToken == json.TokArray || firstToken == json.TokObject {
